@@ -30,6 +30,7 @@ Plan traverse_generate(uint64_t base, const std::string &prop, uint64_t index, i
     else if (dm < 85) { p.max_depth = std::min(255, std::max(1, need - 1 - (int)rd.below(2))); if (p.max_depth < need) p.faults.push_back("F6:max_depth_below_nesting"); }
     else p.max_depth = 1 + (int)rd.below(40);
     p.prefill = rd.chance(1, 2) ? (rd.next() | 1) : 0;
+    if (prop != "C16" && ro.chance(1, 5)) p.par["nocb"] = 1;
     int nch = (int)ro.below(tier ? 300 : 150);
     for (int i = 0; i < nch; i++) p.ops.push_back(mk(X_CHOICE, (int64_t)ro.below(1000)));
     return p;
@@ -116,6 +117,7 @@ Result traverse_execute(const Plan &p, const ExecCtx &c) {
     PSession ps(tr, sink, r.cnt);
     ps.setup(p.max_depth, p.prefill, p.doc, p.root != 0);
     ps.guard_lookups = false;       // lookups are only issued while the traversal is inside an object
+    ps.use_cb = !p.P("nocb");
     Walker w{p, ps, r, 0, {}, {}, true, false, 0, 0};
     w.run();
     bool traversal_ok = w.ok && w.done && ps.err() == 0 && !ps.dead;
